@@ -290,6 +290,27 @@ func checkC13(c *Ctx) {
 	for _, cp := range codecPairs {
 		checkCodecPair(c, m, cp)
 	}
+	// B4: byte copies of the hand-written encoders copy all of their source
+	const B4 = "C13.B4"
+	c.Rule(B4, "byte copies in the encoders are complete (no silent truncation)", 3)
+	for _, mp := range []struct{ mod, pkg string }{{ModRoot, PkgDisc}, {ModRoot, PkgThreshold}, {ModRoot, PkgRBC}, {ModBLS, PkgBLS}, {ModPS, PkgPS}} {
+		mm := c.Mod(mp.mod)
+		if mm == nil {
+			continue
+		}
+		fns := mm.PkgFuncs(mp.pkg)
+		for _, fn := range fns {
+			for _, cp := range builtinCalls(fn, "copy") {
+				if !isByteSlice(cp.Call.Args[0].Type()) {
+					continue
+				}
+				le := &lenEnv{fn: fn, pkgFns: fns}
+				ok, why := le.copyComplete(cp)
+				c.Check(ok, B4, FuncName(fn), "copy of "+render(cp.Call.Args[1]), mm.Pos(cp.Pos()), why,
+					"the destination may be shorter than the source, and copy() truncates silently: the encoded message loses its tail ("+why+")")
+			}
+		}
+	}
 	// B3: lane completeness of id hashing
 	const B3 = "C13.B3"
 	c.Rule(B3, "id hashing feeds every byte of the identifier", 2)
